@@ -23,6 +23,11 @@ BLOCKS = {
     "BaseProject.__allocate@placement": {
         "host": "BaseProject.__allocate", "loop_iter": "ready_and_working_task_list",
         "if_test": "task.target_component is not None", "params": ["self", "task", "target_workplace_id_list"]},
+    # the branch that gives workers to a task that needs no facility
+    "BaseProject.__allocate@workers": {
+        "host": "BaseProject.__allocate", "loop_iter": "ready_and_working_task_list",
+        "if_test": "not task.auto_task", "path": [("task.need_facility", "orelse")],
+        "params": ["self", "task", "free_worker_list"]},
 }
 
 
@@ -120,6 +125,15 @@ class Source:
             raise KeyError("block %s: expected exactly one `if %s` in the loop over %s of %s, found %d"
                            % (qual, spec["if_test"], spec["loop_iter"], spec["host"], len(found)))
         loop, stmt = found[0]
+        stmts = [stmt]
+        for test, branch in spec.get("path", []):
+            inner = [x for x in stmts[0].body if isinstance(x, ast.If) and ast.unparse(x.test) == test] if len(stmts) == 1 and isinstance(stmts[0], ast.If) else []
+            if len(inner) != 1:
+                raise KeyError("block %s: expected exactly one `if %s` on the path, found %d" % (qual, test, len(inner)))
+            stmts = list(getattr(inner[0], branch))
+            if not stmts:
+                raise KeyError("block %s: empty branch %s of `if %s`" % (qual, branch, test))
+        stmt = ast.Module(body=stmts, type_ignores=[])      # only walked below; the function body is `stmts`
         # free local variables of the block = names it loads that the host assigns (parameters, loop targets, locals)
         host_locals = {a.arg for a in host.args.args}
         for n in ast.walk(host):
@@ -141,6 +155,17 @@ class Source:
         class V(ast.NodeVisitor):
             def visit_Name(v, n):
                 first_use.setdefault(n.id, type(n.ctx).__name__)
+
+            def visit_Assign(v, n):          # evaluation order: the value is read before the target is bound
+                v.visit(n.value)
+                for t in n.targets:
+                    v.visit(t)
+
+            def visit_AugAssign(v, n):
+                if isinstance(n.target, ast.Name):
+                    first_use.setdefault(n.target.id, "Load")
+                v.visit(n.value)
+                v.visit(n.target)
         V().visit(stmt)                  # depth-first, source order
         for name, ctx in first_use.items():
             if name in host_locals and ctx == "Load" and name not in bound_by_comprehension:
@@ -153,9 +178,9 @@ class Source:
         fn = ast.FunctionDef(name=qual.split(".", 1)[1],
                              args=ast.arguments(posonlyargs=[], args=[ast.arg(arg=p) for p in spec["params"]], kwonlyargs=[],
                                                 kw_defaults=[], defaults=[]),
-                             body=[stmt], decorator_list=[], lineno=stmt.lineno, end_lineno=stmt.end_lineno, col_offset=0)
+                             body=stmts, decorator_list=[], lineno=stmts[0].lineno, end_lineno=stmts[-1].end_lineno, col_offset=0)
         ast.fix_missing_locations(fn)
-        fn.lineno, fn.end_lineno = stmt.lineno, stmt.end_lineno
+        fn.lineno, fn.end_lineno = stmts[0].lineno, stmts[-1].end_lineno
         self._blocks[qual] = (defcls, fn)
         return defcls, fn
 
